@@ -2,6 +2,7 @@ package fsm
 
 import (
 	"github.com/canopy-network/canopy/lib"
+	"github.com/canopy-network/canopy/lib/crypto"
 )
 
 // C20 / X3a: DEX holding-pool identity for the three user-facing handlers, one inductive step each.
@@ -104,11 +105,12 @@ func ZZ_C20_X3a_dex_handlers_keep_holding_identity() {
 // burned); nobody receives more than the pro-rata share of the points they held; a provider that
 // did not ask keeps its points; nothing underflows. Bound: the reserves x and y are arbitrary
 // 62-bit / 64-bit values, provider points are taken from {1,3,10}, the dead address holds 1 or 1000
-// points and the percents are 0, 1, 50 or 100 - with symbolic points or percents the chained floor
+// points and the percents are 0, 1, 50 or 100 (quick tier: provider 1 holds 10 points, provider 0 holds
+// 1 or 3, percents 0, 50, 100) - with symbolic points or percents the chained floor
 // divisions have symbolic divisors, which none of the solvers decided even for values <= 63 (the
 // single SafeMulDiv floor lemma X2.md is proved at 64 bits for arbitrary operands).
 //
-//zz:harness mode=int unwind=60 maxpaths=60000 timebudget=1500 obtimeout=120
+//zz:harness mode=int unwind=60 maxpaths=600000 timebudget=7200 obtimeout=120 param.p0max@quick=1 param.p1min@quick=2 param.pctmax@quick=2 param.p0max@thorough=2 param.p1min@thorough=0 param.pctmax@thorough=3
 //zz:reach X3b.done X3b.paid
 func ZZ_C20_X3b_batch_withdraw_pays_shares_once() {
 	sm, _ := zzFSM(10)
@@ -116,7 +118,8 @@ func ZZ_C20_X3b_batch_withdraw_pays_shares_once() {
 	x, y := zzN64("x"), zzN64("y")
 	pts := []uint64{1, 3, 10}
 	pd := []uint64{1, 1000}[zzConcrete(zzInt("deadPoints"), 0, 1)]
-	p0, p1 := pts[zzConcrete(zzInt("points0"), 0, 2)], pts[zzConcrete(zzInt("points1"), 0, 2)]
+	// quick: provider 0 holds 1 or 3 points, provider 1 holds 10; thorough: each of {1,3,10}
+	p0, p1 := pts[zzConcrete(zzInt("points0"), 0, zzParam("p0max", 2))], pts[zzConcrete(zzInt("points1"), zzParam("p1min", 0), 2)]
 	zzAssume(total < 1<<62 && x < 1<<62)
 	// a pool that carries points holds tokens (SetPool deletes a pool whose balance is zero, points
 	// included); the obligation X3b.reserve-not-emptied keeps this inductive
@@ -141,7 +144,7 @@ func ZZ_C20_X3b_batch_withdraw_pays_shares_once() {
 	var pct [2]uint64
 	for i := 0; i < nw; i++ {
 		who[i] = zzConcrete(zzInt("withdrawer"), 0, 2) // 2 = holds no points
-		pct[i] = []uint64{0, 1, 50, 100}[zzConcrete(zzInt("percent"), 0, 3)]
+		pct[i] = []uint64{0, 50, 100, 1}[zzConcrete(zzInt("percent"), 0, zzParam("pctmax", 3))]
 		batch.Withdrawals = append(batch.Withdrawals, &lib.DexLiquidityWithdraw{Address: zzAddr(who[i]), Percent: pct[i], OrderId: zzOrderId})
 	}
 	xx, yy := x, y
@@ -202,3 +205,112 @@ func ZZ_C20_X3b_batch_withdraw_pays_shares_once() {
 	zzAssert("X3b.total-supply-unchanged", sup1.Total == total+x)
 	zzReach("X3b.done")
 }
+
+// C20 / X3c: batch settlement of liquidity deposits (the real handleBatchDeposit, local side), one
+// inductive step: a live pool (reserve x >= 1, mirror y >= 1, dead-address points plus one provider),
+// the holding pool holding the batch's deposits plus an arbitrary rest (next batch), and a batch of
+// one or two deposits by the existing provider or by newcomers, amounts arbitrary incl. 0 - the same
+// address may deposit twice. The AMOUNT of points minted is abstracted: liquidityDepositPoints and
+// the pro-rata split lib.SafeMulDiv return arbitrary values here (their arithmetic is X2.lp / X2.md);
+// what is decided is the token and points BOOK-KEEPING, for any minted amounts whatsoever:
+// every deposit of the batch leaves the holding pool and reaches the liquidity pool - exactly once,
+// also when its share of the points rounds to zero -, accounts are not touched, the total supply
+// is unchanged, the pool balance is the new reserve, points sum to the pool's total, no provider
+// loses points and no zero-point entry is created.
+//
+//zz:harness mode=int unwind=60 maxpaths=100000 timebudget=1500
+//zz:stub github.com/canopy-network/canopy/fsm.liquidityDepositPoints harness zzArbitraryPoints
+//zz:stub github.com/canopy-network/canopy/lib.SafeMulDiv harness zzArbitraryShare
+//zz:reach X3c.done X3c.settled X3c.failed
+func ZZ_C20_X3c_batch_deposit_moves_every_deposit_once() {
+	sm, _ := zzFSM(10)
+	total := zzWorld3(sm)
+	dead := []byte{0xde, 0xad, 0xde, 0xad, 0xde, 0xad, 0xde, 0xad, 0xde, 0xad, 0xde, 0xad, 0xde, 0xad, 0xde, 0xad, 0xde, 0xad, 0xde, 0xad}
+	deadAddr = crypto.NewAddress(dead)
+	x, y, rest := zzN64("x"), zzN64("y"), zzN64("holdingRest")
+	pd, p0 := zzN64("deadPoints"), zzN64("points0")
+	zzAssume(x >= 1 && y >= 1 && pd >= 1 && p0 >= 1)
+	zzAssume(total < 1<<60 && x < 1<<60 && rest < 1<<60 && pd < 1<<60 && p0 < 1<<60)
+	nd := zzConcrete(zzInt("deposits"), 1, 2)
+	batch := &lib.DexBatch{Committee: 2}
+	var who [2]int
+	var amt [2]uint64
+	var sumDep uint64
+	for i := 0; i < nd; i++ {
+		who[i] = zzConcrete(zzInt("depositor"), 0, 2) // 0 = holds points already, 1 and 2 are newcomers
+		amt[i] = zzN64("deposit")
+		zzAssume(amt[i] < 1<<60)
+		sumDep += amt[i]
+		batch.Deposits = append(batch.Deposits, &lib.DexLiquidityDeposit{Address: zzAddr(who[i]), Amount: amt[i], OrderId: zzOrderId})
+	}
+	lp := &Pool{Id: 2 + LiquidityPoolAddend, Amount: x, TotalPoolPoints: pd + p0,
+		Points: []*lib.PoolPoints{{Address: dead, Points: pd}, {Address: zzAddr(0), Points: p0}}}
+	if sm.SetPool(lp) != nil || sm.SetPool(&Pool{Id: 2 + HoldingPoolAddend, Amount: sumDep + rest}) != nil {
+		panic("pools")
+	}
+	sup, _ := sm.GetSupply()
+	sup.Total = total + x + sumDep + rest
+	if sm.SetSupply(sup) != nil {
+		panic("supply")
+	}
+	sm.ResetCaches()
+	before := zzBalances(sm)
+	xx, yy := x, y
+	err := sm.HandleBatchDeposit(batch, 2, &xx, &yy, true)
+	if err != nil {
+		// only an arithmetic guard of the points ledger may refuse a batch (the abstracted minted
+		// amounts are arbitrary, so overflowing ones exist)
+		zzReach("X3c.failed")
+		return
+	}
+	sm.ResetCaches()
+	hold, e1 := sm.GetPoolBalance(2 + HoldingPoolAddend)
+	p, e2 := sm.GetPool(2 + LiquidityPoolAddend)
+	zzAssert("X3c.pools-readable", e1 == nil && e2 == nil)
+	if sumDep == 0 {
+		zzAssert("X3c.empty-deposits-move-nothing", hold == rest && p.Amount == x && xx == x)
+		zzReach("X3c.done")
+		return
+	}
+	zzReach("X3c.settled")
+	zzAssert("X3c.every-deposit-leaves-the-holding-pool-once", hold == rest)
+	zzAssert("X3c.every-deposit-reaches-the-liquidity-pool-once", p.Amount == x+sumDep)
+	zzAssert("X3c.pool-balance-is-the-new-reserve", p.Amount == xx)
+	zzAssert("X3c.mirror-untouched", yy == y)
+	after := zzBalances(sm)
+	for i := 0; i < 3; i++ {
+		zzAssert("X3c.accounts-untouched", after[i] == before[i])
+	}
+	var sum, held0, heldDead uint64
+	for _, pt := range p.Points {
+		sum += pt.Points
+		zzAssert("X3c.no-zero-point-entry", pt.Points != 0)
+		if string(pt.Address) == string(zzAddr(0)) {
+			held0 = pt.Points
+		}
+		if string(pt.Address) == string(dead) {
+			heldDead = pt.Points
+		}
+		for i := 0; i < nd; i++ {
+			if string(pt.Address) == string(zzAddr(who[i])) && who[i] != 0 {
+				zzAssert("X3c.newcomer-with-points-deposited-something", amt[0]+amt[1] > 0)
+			}
+		}
+	}
+	zzAssert("X3c.points-sum-to-the-total", sum == p.TotalPoolPoints)
+	zzAssert("X3c.nobody-loses-points", held0 >= p0 && heldDead >= pd)
+	sup1, _ := sm.GetSupply()
+	zzAssert("X3c.total-supply-unchanged", sup1.Total == total+x+sumDep+rest)
+	s2, ok := zzSumWorld(sm)
+	zzAssert("X3c.total-equals-sum", ok && s2 == sup1.Total)
+	zzReach("X3c.done")
+}
+
+func zzArbitraryPoints(totalPoints, x, y, amount uint64) (uint64, lib.ErrorI) {
+	if zzBool("pointsError") {
+		return 0, ErrInvalidLiquidityPool()
+	}
+	return zzN64("mintedPoints"), nil
+}
+
+func zzArbitraryShare(a, b, c uint64) uint64 { return zzN64("share") }
